@@ -45,6 +45,14 @@ fn stdin_shapes(cap_hint: usize) -> Vec<(Vec<String>, String, &'static str)> {
         (vec!["".into(), "c".into()], "\nc\n".into(), "an empty line, then a line"),
         (vec!["".into(), "".into(), "zz".into()], "\n\nzz\n".into(), "two empty lines, then a line"),
         (vec!["".into(), "tail".into()], "\ntail".into(), "an empty line, then a line without newline"),
+        // white space is input like any other character: only the line terminator is not part of the line
+        (vec!["ab  ".into()], "ab  \n".into(), "line ending in blanks"),
+        (vec!["  lead".into()], "  lead\n".into(), "line starting with blanks"),
+        (vec!["   ".into()], "   \n".into(), "a line of blanks only"),
+        (vec!["\ta\tb\t".into()], "\ta\tb\t\n".into(), "tabs at both ends"),
+        (vec!["vt\u{b}\u{c}".into()], "vt\u{b}\u{c}\n".into(), "line ending in vertical tab and form feed"),
+        (vec!["\u{a0}nb\u{a0}".into(), "\u{2003}".into()], "\u{a0}nb\u{a0}\n\u{2003}\n".into(), "non-ASCII white space at both ends"),
+        (vec!["end ".into()], "end ".into(), "trailing blank, no newline"),
     ]
 }
 
@@ -355,6 +363,7 @@ fn pairs(thorough: bool) -> Vec<Case> {
         (vec!["only".into()], "only\n".into()),
         (vec![], "".into()),
         (vec!["".into(), "after an empty line".into(), "third".into()], "\nafter an empty line\nthird\n".into()),
+        (vec![" padded ".into(), "\t".into()], " padded \n\t\n".into()),
     ];
     if thorough {
         // histories of three services (all 125 ordered triples), a third input line available
@@ -400,6 +409,85 @@ fn pairs(thorough: bool) -> Vec<Case> {
     v
 }
 
+/// a service writes something and the run then ENDS without any print statement or prompt in between: what
+/// the service wrote must be on the standard output before whatever ends the run says (a buffered writer
+/// that is only flushed at the flush points someone thought of is seen here)
+fn output_then_end() -> Vec<Case> {
+    let mut v = Vec::new();
+    let outs: [(&str, fn(&mut Vec<Item>)); 3] = [
+        ("21h/02", |code| {
+            code.push(mov(r8("dl"), imm(0x31)));
+            code.push(mov(r8("ah"), imm(2)));
+            code.push(int(0x21));
+            code.push(mov(r8("dl"), imm(0x32)));
+            code.push(int(0x21));
+        }),
+        ("10h/0a", |code| {
+            code.push(mov(r16("cx"), imm(3)));
+            code.push(mov(r16("ax"), imm(0x0A2A)));
+            code.push(int(0x10));
+        }),
+        ("10h/13", |code| {
+            code.push(mov(direct(W::W, 0x0302), imm(0x6968)));
+            code.push(mov(r16("cx"), imm(2)));
+            code.push(mov(r16("bp"), imm(0x0302)));
+            code.push(mov(r8("dl"), imm(1)));
+            code.push(mov(r8("ah"), imm(0x13)));
+            code.push(int(0x10));
+        }),
+    ];
+    let ends: [(&str, fn(&mut Vec<Item>), &str); 8] = [
+        ("divide error", |code| {
+            code.push(mov(r8("bl"), imm(0)));
+            code.push(Item::Ins(Instr::MulDiv(MulOp::Div, r8("bl"))));
+            code.push(print(PrintKind::Reg));
+        }, ""),
+        ("unsupported AH of int 21h", |code| {
+            code.push(mov(r8("ah"), imm(0x55)));
+            code.push(int(0x21));
+            code.push(print(PrintKind::Reg));
+        }, ""),
+        ("unsupported AH of int 10h", |code| {
+            code.push(mov(r8("ah"), imm(0x77)));
+            code.push(int(0x10));
+            code.push(print(PrintKind::Reg));
+        }, ""),
+        ("hlt", |code| {
+            code.push(z(ZeroOp::Hlt));
+            code.push(print(PrintKind::Reg));
+        }, ""),
+        ("the end of the program", |_code| {}, ""),
+        ("quit at a breakpoint prompt", |code| {
+            code.push(int(3));
+            code.push(print(PrintKind::Reg));
+        }, "q\n"),
+        ("end of input at a breakpoint prompt", |code| {
+            code.push(int(3));
+            code.push(print(PrintKind::Reg));
+        }, ""),
+        ("a reading service at end of input, then the end", |code| {
+            code.push(mov(r8("ah"), imm(1)));
+            code.push(int(0x21));
+        }, ""),
+    ];
+    for (on, of) in outs.iter() {
+        for (en, ef, stdin) in ends.iter() {
+            for twice in [false, true] {
+                let mut code = vec![label("start")];
+                if twice {
+                    // an earlier print statement (a flush point) must not make a difference
+                    code.push(print(PrintKind::Flags));
+                }
+                of(&mut code);
+                ef(&mut code);
+                let lines: Vec<String> = stdin.lines().map(|l| l.to_string()).collect();
+                v.push(Case { site: "service output, then the run ends".into(), prog: Program { data: vec![], code }, stdin_lines: lines, stdin_raw: stdin.to_string(), note: format!("{} then {}{}", on, en, if twice { " (after a print statement)" } else { "" }) });
+            }
+        }
+    }
+    v
+}
+
 pub fn run(tier: &Tier) -> i32 {
     let rep_o = Reporter::new("C18", tier.name());
     let c_o = Counters::default();
@@ -420,6 +508,7 @@ pub fn run(tier: &Tier) -> i32 {
     add("int10_13", int10_13(tier.thorough), &mut cases, &mut groups);
     add("unsupported_ah", unsupported(), &mut cases, &mut groups);
     add("service_pairs", pairs(tier.thorough), &mut cases, &mut groups);
+    add("output_then_end", output_then_end(), &mut cases, &mut groups);
     let mb: HashMap<String, Vec<Item>> = HashMap::new();
     let out_bytes = AtomicU64::new(0);
     let unsup = AtomicU64::new(0);
@@ -489,7 +578,7 @@ pub fn run(tier: &Tier) -> i32 {
     }
     let mut cov = Coverage::default();
     cov.exhaustive = true;
-    cov.rule = "every run is the real binary with a scripted stdin (pipe closed after the script). INT 21h/02: all 256 DL values x 2 prior AL. INT 21h/01: 13 stdin shapes (closed, empty line, empty line(s) followed by a line, short, exactly capacity, longer, no trailing newline, two lines, 300 characters, UTF-8) x 2 prior AL, followed by a second read and an echo. INT 21h/0Ah: 5 buffer placements (low, offset wrap at 16 bits, crossing 2^20, ending exactly at 0xFFFFF, header split by the wrap) x capacities {0,1,2,5,16,255} (thorough: all 256) x the stdin shapes, the buffer surrounded by 0xEE markers; plus a line of 1-, 2-, 3- and 4-byte characters cut by every capacity 0..length+1 (the cut falls inside a character). INT 10h/0Ah: AL x CX lattice (thorough: all 256 AL x 15 CX up to 65535). INT 10h/13h: 6 (ES,BP) placements incl. text whose high bytes form well-formed UTF-8, strings crossing 2^20 and BP+i wrapping at 16 bits x DL x CX (thorough: all 256 DL x 12 CX up to 65535). Every AH value 0..255 other than the supported ones for both interrupts, at the first / a middle / the last line. All 25 ordered pairs of services x 4 stdin scripts (thorough: all 125 ordered triples x 4 scripts). After each service the program prints all registers, the flags, the marker window around the buffer, the first 48 and the last 48 bytes of memory; service output is matched byte for byte and every printed field against the reference state. Every distinct program that reads input also runs once with a standard input on which every read fails and must end normally".into();
+    cov.rule = "every run is the real binary with a scripted stdin (pipe closed after the script). INT 21h/02: all 256 DL values x 2 prior AL. INT 21h/01: 20 stdin shapes (closed, empty line, lines with white space at either end / of white space only, empty line(s) followed by a line, short, exactly capacity, longer, no trailing newline, two lines, 300 characters, UTF-8) x 2 prior AL, followed by a second read and an echo. INT 21h/0Ah: 5 buffer placements (low, offset wrap at 16 bits, crossing 2^20, ending exactly at 0xFFFFF, header split by the wrap) x capacities {0,1,2,5,16,255} (thorough: all 256) x the stdin shapes, the buffer surrounded by 0xEE markers; plus a line of 1-, 2-, 3- and 4-byte characters cut by every capacity 0..length+1 (the cut falls inside a character). INT 10h/0Ah: AL x CX lattice (thorough: all 256 AL x 15 CX up to 65535). INT 10h/13h: 6 (ES,BP) placements incl. text whose high bytes form well-formed UTF-8, strings crossing 2^20 and BP+i wrapping at 16 bits x DL x CX (thorough: all 256 DL x 12 CX up to 65535). Every AH value 0..255 other than the supported ones for both interrupts, at the first / a middle / the last line. All 25 ordered pairs of services x 5 stdin scripts (thorough: all 125 ordered triples x 5 scripts). After each service the program prints all registers, the flags, the marker window around the buffer, the first 48 and the last 48 bytes of memory; service output is matched byte for byte and every printed field against the reference state. Service output followed directly by whatever ends the run (divide error, unsupported AH of either interrupt, hlt, the end of the program, quit / end of input at a breakpoint prompt, a reading service at end of input), 3 writing services x 8 endings x with / without an earlier print statement: what the service wrote must precede the ending's message. Every distinct program that reads input also runs once with a standard input on which every read fails and must end normally".into();
     cov.bounds = json!({"groups": groups.iter().map(|(n, k)| json!({"group": n, "runs": k})).collect::<Vec<_>>(), "service_output_bytes_matched": out_bytes.load(Ordering::Relaxed), "unsupported_reports_checked": unsup.load(Ordering::Relaxed), "cases_conforming_only_in_dos_encoding": dos_mode_used.load(Ordering::Relaxed), "programs_run_with_unreadable_stdin": unreadable.load(Ordering::Relaxed), "tier": tier.name()});
     cov.assumptions = common_assumptions();
     cov.assumptions.push("characters >= 0x80 may be written as the raw byte or as the UTF-8 encoding of the same code point".into());
